@@ -127,7 +127,7 @@ type Spec struct {
 	SelSets      []SelSetSpec  `json:"selsets"`
 	CallArgs     []CallArgSpec `json:"callargs"`
 	JSONKeys     []JSONKeySpec `json:"jsonkeys"` // see tables.go
-	Guards       []SkelSpec    `json:"guards"` // functions whose `if` conditions are emitted as source text (Gen.Guard.<name>)
+	Guards       []SkelSpec    `json:"guards"`   // functions whose `if` conditions are emitted as source text (Gen.Guard.<name>)
 	Conds        []CondSpec    `json:"conds"`
 	ModelImports []string      `json:"model_imports"` // hand-written Model modules (receiver structures of translated predicates)
 }
